@@ -163,6 +163,16 @@ def panic_phase(outcome, work, drv, n, length, profile="mixed", shards=16):
     other = 0
     for r in rejs:
         if r.event.get("ev") != "panic":
+            # C12's last clause: "a rejected message leaves previously stored data intact" - a data call that the cache
+            # answered with an error (as the model expects it to) and after which the content differs from what Cache.tla prescribes
+            if r.event.get("ev") in DATA_CALLS and r.event.get("res") not in (None, "ok"):
+                failing = diagnose(r, os.path.join(work, "hdiag")) or set()
+                if "res" not in failing and failing & {"proj", "mirror"}:
+                    sc = scen.get(r.scenario[0].get("sc"), {})
+                    outcome.report("cache %s refused (%s) but stored data changed: aspects=%s" % (r.event.get("ev"), r.event.get("res"), "+".join(sorted(failing))),
+                                   dict(family="cache", scenario=dict(sc, ops=sc.get("ops", [])[:len(r.scenario) - 1]),
+                                        rejected_event=r.event, reason=r.reason, failing_aspects=sorted(failing), spec="CacheTrace.tla"))
+                    continue
             other += 1
             continue
         sc = scen.get(r.scenario[0].get("sc"), {})
